@@ -858,7 +858,9 @@ Section Init.
       base_init c ac io kw'' vr ;;;
       match c_kind c with
       | BObs21 =>
-          if mem_key (us "id") kw' then ret tt
+          (* `kwargs.get('id') is None` from fix 6e9bcfe on (`'id' not in kwargs` before): a null id is treated as
+             "may be regenerated", which covers both readings *)
+          if match jlookup (us "id") kw' with Some JNull | None => false | Some _ => true end then ret tt
           else
             may [K_InvalidValueError; K_ValueError] ;;;    (* _generate_id: no hashes / a null inside a value *)
             (* ... and canonicalize() of the id-contributing values: float() of a huge integer *)
@@ -869,7 +871,8 @@ Section Init.
       end ;;;
       (* class_for_type(ext, version, "extensions")() : None() is a TypeError, else a construction without arguments *)
       if negb (c_ver20 c) && existsb (fun p => match p with PreCustom true => true | _ => false end) (c_pre c)
-      then may [K_TypeError; K_InvalidValueError; K_MissingPropertiesError; K_AtLeastOnePropertyError]
+      then may [K_TypeError; K_InvalidValueError; K_MissingPropertiesError; K_AtLeastOnePropertyError; K_ValueError]
+           (* (ValueError: the custom observable builder calls _generate_id once more after adding the extension) *)
       else ret tt.
 
   (* MarkingDefinition.__init__ (2.0 and 2.1): builds the marking-type object from raw input *)
